@@ -702,18 +702,57 @@ func runPathBytes(c *Ctx, transparent bool) {
 		b, ok := t.Underlying().(*types.Basic)
 		return ok && b.Kind() == types.String
 	}
-	// validators: repository functions that call unicode/utf8.Valid* / ValidString
+	// validators: repository functions that call unicode/utf8.Valid* on every string field of manifest.FileItem and manifest.Manifest
+	// (each of them travels as a JSON string)
+	required := map[*types.Var]bool{}
+	for _, tn := range []string{"FileItem", "Manifest"} {
+		if t, _ := p.LookupObj("pkg/manifest", tn).(*types.TypeName); t != nil {
+			if st, ok := t.Type().Underlying().(*types.Struct); ok {
+				for i := 0; i < st.NumFields(); i++ {
+					if isString(st.Field(i).Type()) {
+						required[st.Field(i)] = true
+					}
+				}
+			}
+		}
+	}
 	validators := map[*FuncInfo]bool{}
+	partial := map[*FuncInfo][]string{}
 	for _, f := range p.Funcs() {
 		info := f.Info()
-		InspectNoLits(f.Body, func(m ast.Node) bool {
+		covered := map[*types.Var]bool{}
+		any := false
+		ast.Inspect(f.Body, func(m ast.Node) bool {
 			if call, ok := m.(*ast.CallExpr); ok {
-				if fn := Callee(info, call); fn != nil && fn.Pkg() != nil && fn.Pkg().Path() == "unicode/utf8" && strings.HasPrefix(fn.Name(), "Valid") {
-					validators[f.Root()] = true
+				if fn := Callee(info, call); fn != nil && fn.Pkg() != nil && fn.Pkg().Path() == "unicode/utf8" && strings.HasPrefix(fn.Name(), "Valid") && len(call.Args) == 1 {
+					any = true
+					ast.Inspect(call.Args[0], func(x ast.Node) bool {
+						if sel, ok := x.(*ast.SelectorExpr); ok {
+							if v, ok := info.Uses[sel.Sel].(*types.Var); ok && required[v] {
+								covered[v] = true
+							}
+						}
+						return true
+					})
 				}
 			}
 			return true
 		})
+		if !any || f.Decl == nil {
+			continue
+		}
+		var missing []string
+		for v := range required {
+			if !covered[v] {
+				missing = append(missing, v.Name())
+			}
+		}
+		sort.Strings(missing)
+		if len(missing) == 0 {
+			validators[f] = true
+		} else if len(covered) > 0 {
+			partial[f] = missing
+		}
 	}
 	spec := &PassSpec{Name: "utf8-valid", Vias: []Via{{Call: func(f *FuncInfo, call *ast.CallExpr) (string, bool) {
 		if g := p.CalleeInfo(f.Info(), call); g != nil && validators[g] {
@@ -746,6 +785,19 @@ func runPathBytes(c *Ctx, transparent bool) {
 			if transparent {
 				c.Bad(key, call.Pos(), "relative paths are carried as JSON strings in the manifest header and as raw bytes in FileBegin; a name that is not valid UTF-8 (legal on Linux, e.g. Latin-1 `caf\\xe9.txt`) cannot be carried by the header, so a valid tree holding such a name cannot be transferred (before F36's partial repair: 'manifest mismatch: unexpected file' on the receiver; after it: refused by the sender)")
 				return
+			}
+			if !spec.Passed(f, r, "valid") {
+				for g, missing := range partial {
+					if pspec := (&PassSpec{Name: "utf8-partial", Vias: []Via{{Call: func(h *FuncInfo, c2 *ast.CallExpr) (string, bool) {
+						if k := p.CalleeInfo(h.Info(), c2); k == g {
+							return "partial", true
+						}
+						return "", false
+					}}}}); pspec.Passed(f, r, "partial") {
+						c.Bad(key, call.Pos(), "the validity check in front of the JSON serialisation ("+g.Name+") does not cover the field(s) "+strings.Join(missing, ", ")+" of the manifest: encoding/json replaces invalid UTF-8 in them by U+FFFD and the peer decodes another value than was encoded")
+						return
+					}
+				}
 			}
 			c.Check(spec.Passed(f, r, "valid"), key, call.Pos(), "paths are checked to be valid UTF-8 before they are serialised as JSON strings",
 				"the manifest header is serialised with encoding/json, which silently replaces every byte of a path that is not valid UTF-8 by U+FFFD, and nothing rejects such a path first: the peer decodes another path than was encoded (`caf\\xe9.txt` -> `caf\\ufffd.txt`), two names that differ only in such bytes collapse into one")
@@ -1301,5 +1353,705 @@ func runReadersMatch(c *Ctx) {
 	})
 	if n == 0 {
 		c.Bad("readers/none", recv.Pos(), "found no loop starting data-stream readers in RecvManifestMultiStream")
+	}
+}
+
+func init() {
+	Register(&Rule{
+		Name:  "R-LEN-PREFIX",
+		Props: []string{"C18"},
+		Min:   4,
+		Doc: "a 16-bit length prefix never wraps: in the record writers of internal/transfer (functions named write*), every uint16(len(x)) is dominated by a bound on that text - `if len(x) > K { return err }` or `if len(x) > K { x = x[:K] }` with a constant K <= 65535 on x or on the message field x was made from, " +
+			"or a validator call on that field (validateRelPath, validateFilename) whose error is returned; written modulo 65536 with the whole text after it, every record that follows is read from the middle of the text",
+		Run: runLenPrefix,
+	})
+}
+
+func runLenPrefix(c *Ctx) {
+	p := c.P
+	n := 0
+	for _, f := range p.FuncsIn("internal/transfer") {
+		if f.Decl == nil || !strings.HasPrefix(f.Decl.Name.Name, "write") || strings.HasSuffix(p.Fset.Position(f.Pos()).Filename, "_test.go") {
+			continue
+		}
+		info := f.Info()
+		// source(x): the expression strings that denote the same text: x itself and, for x := []byte(E) / string(E), E
+		sources := func(e ast.Expr) []string {
+			out := []string{types.ExprString(ast.Unparen(e))}
+			for _, d := range resolveExprs(f, e, 1) {
+				out = append(out, types.ExprString(StripConv(info, d)))
+			}
+			return out
+		}
+		spec := &PassSpec{Name: "len-bound", Vias: []Via{
+			{Cond: func(g *FuncInfo, e ast.Expr) (string, bool, bool) { // len(X) > K: false edge bounded
+				be, ok := ast.Unparen(e).(*ast.BinaryExpr)
+				if !ok || (be.Op != token.GTR && be.Op != token.GEQ) {
+					return "", false, false
+				}
+				call, ok := ast.Unparen(be.X).(*ast.CallExpr)
+				if !ok || len(call.Args) != 1 {
+					return "", false, false
+				}
+				if id, ok := ast.Unparen(call.Fun).(*ast.Ident); !ok || id.Name != "len" {
+					return "", false, false
+				}
+				k, ok := constInt(info, be.Y)
+				if !ok || k > 65535+int64(map[bool]int{true: 1, false: 0}[be.Op == token.GEQ]) {
+					return "", false, false
+				}
+				return "bounded:" + types.ExprString(StripConv(info, call.Args[0])), false, true
+			}},
+			{Call: func(g *FuncInfo, call *ast.CallExpr) (string, bool) { // validator(E) == nil
+				if h := p.CalleeInfo(g.Info(), call); h != nil && (h.Name == "transfer.validateRelPath" || h.Name == "transfer.validateFilename") && len(call.Args) == 1 {
+					return "bounded:" + types.ExprString(StripConv(g.Info(), call.Args[0])), true
+				}
+				return "", false
+			}},
+			{Stmt: func(g *FuncInfo, nd ast.Node) (string, bool) { // x = x[:K]
+				as, ok := nd.(*ast.AssignStmt)
+				if !ok || len(as.Lhs) != 1 || len(as.Rhs) != 1 {
+					return "", false
+				}
+				se, ok := ast.Unparen(as.Rhs[0]).(*ast.SliceExpr)
+				if !ok || se.High == nil || types.ExprString(se.X) != types.ExprString(as.Lhs[0]) {
+					return "", false
+				}
+				if k, ok := constInt(info, se.High); ok && k <= 65535 {
+					return "bounded:" + types.ExprString(as.Lhs[0]), true
+				}
+				return "", false
+			}},
+		}}
+		k := 0
+		f.CFG().Calls(func(r NodeRef, call *ast.CallExpr) {
+			tv, ok := info.Types[call.Fun]
+			if !ok || !tv.IsType() || len(call.Args) != 1 {
+				return
+			}
+			if b, ok := tv.Type.Underlying().(*types.Basic); !ok || b.Kind() != types.Uint16 {
+				return
+			}
+			lc, ok := ast.Unparen(call.Args[0]).(*ast.CallExpr)
+			if !ok || len(lc.Args) != 1 {
+				return
+			}
+			if id, ok := ast.Unparen(lc.Fun).(*ast.Ident); !ok || id.Name != "len" {
+				return
+			}
+			n++
+			k++
+			key := fmt.Sprintf("prefix/%s#%d", f.Name, k)
+			good := false
+			for _, src := range sources(lc.Args[0]) {
+				if spec.Passed(f, r, "bounded:"+src) {
+					good = true
+				}
+			}
+			c.Check(good, key, call.Pos(), "the text is bounded (rejected, cut or validated) before its length is narrowed to 16 bits",
+				f.Name+" writes uint16(len("+types.ExprString(lc.Args[0])+")) and then the whole text without bounding it first: for a text of 65536+k bytes the prefix says k, the peer decodes a k-byte text and reads the next record from the middle of this one")
+		})
+	}
+	if n == 0 {
+		c.Bad("prefix/none", token.NoPos, "found no 16-bit length prefix in the record writers")
+	}
+}
+
+func init() {
+	Register(&Rule{
+		Name:  "R-SELECTED-REGULAR",
+		Props: []string{"C13"},
+		Min:   2,
+		Doc: "a selected path is listed as a file only when it is a regular file: in pkg/manifest every FileItem literal with IsDir false whose Size is <info>.Size() of an os.Stat result (the selection itself; entries of a walk are filtered by their DirEntry type) " +
+			"is reached only past the false edge of `!info.IsDir() && !info.Mode().IsRegular()` (or the true edge of Mode().IsRegular()) on that very FileInfo - a device, pipe or socket (also behind a link) has a stat size that is not its readable content",
+		Run: runSelectedRegular,
+	})
+}
+
+func runSelectedRegular(c *Ctx) {
+	p := c.P
+	fi, _ := p.LookupObj("pkg/manifest", "FileItem").(*types.TypeName)
+	if fi == nil {
+		c.MissingAnchor("manifest.FileItem")
+		return
+	}
+	n := 0
+	for _, f := range p.FuncsIn("pkg/manifest") {
+		if f.Lit != nil || strings.HasSuffix(p.Fset.Position(f.Pos()).Filename, "_test.go") {
+			continue
+		}
+		info := f.Info()
+		isRegularOf := func(e ast.Expr) (string, bool) { // X.Mode().IsRegular()
+			call, ok := ast.Unparen(e).(*ast.CallExpr)
+			if !ok {
+				return "", false
+			}
+			sel, ok := ast.Unparen(call.Fun).(*ast.SelectorExpr)
+			if !ok || sel.Sel.Name != "IsRegular" {
+				return "", false
+			}
+			mc, ok := ast.Unparen(sel.X).(*ast.CallExpr)
+			if !ok {
+				return "", false
+			}
+			ms, ok := ast.Unparen(mc.Fun).(*ast.SelectorExpr)
+			if !ok || ms.Sel.Name != "Mode" {
+				return "", false
+			}
+			return types.ExprString(ms.X), true
+		}
+		spec := &PassSpec{Name: "regular", Vias: []Via{{Cond: func(g *FuncInfo, e ast.Expr) (string, bool, bool) {
+			e = ast.Unparen(e)
+			// the fact is "directory or regular file": it survives the join of `if !X.IsDir() { if !regular { return } }`,
+			// and the literal checked below is a non-directory by construction (IsDir: false)
+			isDirOf := func(z ast.Expr) (string, bool) {
+				call, ok := ast.Unparen(z).(*ast.CallExpr)
+				if !ok {
+					return "", false
+				}
+				if sel, ok := ast.Unparen(call.Fun).(*ast.SelectorExpr); ok && sel.Sel.Name == "IsDir" && len(call.Args) == 0 {
+					return types.ExprString(sel.X), true
+				}
+				return "", false
+			}
+			if x, ok := isDirOf(e); ok {
+				return "regular:" + x, true, true
+			}
+			if u, ok := e.(*ast.UnaryExpr); ok && u.Op == token.NOT {
+				if x, ok := isDirOf(u.X); ok {
+					return "regular:" + x, false, true
+				}
+			}
+			if x, ok := isRegularOf(e); ok {
+				return "regular:" + x, true, true
+			}
+			if u, ok := e.(*ast.UnaryExpr); ok && u.Op == token.NOT {
+				if x, ok := isRegularOf(u.X); ok {
+					return "regular:" + x, false, true
+				}
+			}
+			// !X.IsDir() && !X.Mode().IsRegular(): false edge = directory or regular file
+			if be, ok := e.(*ast.BinaryExpr); ok && be.Op == token.LAND {
+				var who string
+				okShape := true
+				for _, a := range Implied(be, true) {
+					if x, ok := isRegularOf(a.E); ok && !a.Val {
+						who = x
+						continue
+					}
+					if call, ok := ast.Unparen(a.E).(*ast.CallExpr); ok && !a.Val {
+						if sel, ok := ast.Unparen(call.Fun).(*ast.SelectorExpr); ok && sel.Sel.Name == "IsDir" {
+							continue
+						}
+					}
+					okShape = false
+				}
+				if okShape && who != "" {
+					return "regular:" + who, false, true
+				}
+			}
+			return "", false, false
+		}}}}
+		// FileInfo variables that come from os.Stat
+		statVars := map[types.Object]bool{}
+		InspectNoLits(f.Body, func(m ast.Node) bool {
+			if as, ok := m.(*ast.AssignStmt); ok && len(as.Rhs) == 1 && len(as.Lhs) == 2 {
+				if call, ok := ast.Unparen(as.Rhs[0]).(*ast.CallExpr); ok && calleeIs(info, call, "os", "Stat") {
+					if o := ObjOf(info, as.Lhs[0]); o != nil {
+						statVars[o] = true
+					}
+				}
+			}
+			return true
+		})
+		k := 0
+		f.CFG().EachNode(func(r NodeRef) {
+			InspectNoLits(r.Node(), func(m ast.Node) bool {
+				cl, ok := m.(*ast.CompositeLit)
+				if !ok {
+					return true
+				}
+				if t := info.TypeOf(cl); t == nil || !types.Identical(t, fi.Type()) {
+					return true
+				}
+				var sizeE ast.Expr
+				isDirFalse := false
+				for _, el := range cl.Elts {
+					if kv, ok := el.(*ast.KeyValueExpr); ok {
+						switch kv.Key.(*ast.Ident).Name {
+						case "Size":
+							sizeE = kv.Value
+						case "IsDir":
+							if id, ok := ast.Unparen(kv.Value).(*ast.Ident); ok && id.Name == "false" {
+								isDirFalse = true
+							}
+						}
+					}
+				}
+				if !isDirFalse || sizeE == nil {
+					return true
+				}
+				call, ok := ast.Unparen(sizeE).(*ast.CallExpr)
+				if !ok {
+					return true
+				}
+				sel, ok := ast.Unparen(call.Fun).(*ast.SelectorExpr)
+				if !ok || sel.Sel.Name != "Size" || !statVars[ObjOf(info, sel.X)] {
+					return true
+				}
+				n++
+				k++
+				who := types.ExprString(sel.X)
+				c.Check(spec.Passed(f, r, "regular:"+who), fmt.Sprintf("selected/%s#%d", f.Name, k), cl.Pos(), "the selection is listed as a file only past the regular-file test of its FileInfo",
+					f.Name+" lists the selected path as a file with the size of its os.Stat result without testing "+who+".Mode().IsRegular(): `thru host /dev/zero`, a named pipe or a link to one is listed as an empty regular file, which is not its readable content")
+				return true
+			})
+		})
+	}
+	if n == 0 {
+		c.Bad("selected/none", token.NoPos, "found no file item built from the os.Stat result of a selected path in pkg/manifest")
+	}
+}
+
+func init() {
+	Register(&Rule{
+		Name:  "R-ANNOUNCE-WAIT",
+		Props: []string{"C15"},
+		Min:   1,
+		Doc: "the wait for the data-stream announcement ends when the control stream has ended: in RecvManifestMultiStream the loop that runs while the announced count is 0 returns on an End record (after End the control reader is gone, nothing else would wake the loop), " +
+			"besides its context and control-error arms - a control stream of header, End, close must not leave the receiver waiting",
+		Run: runAnnounceWait,
+	})
+}
+
+func runAnnounceWait(c *Ctx) {
+	p := c.P
+	recv := p.Func("transfer.RecvManifestMultiStream")
+	cnt, _ := p.LookupObj("internal/transfer", "DataStreams.Count").(*types.Var)
+	endC, _ := p.LookupObj("internal/transfer", "controlTypeEnd").(*types.Const)
+	if recv == nil || cnt == nil || endC == nil {
+		c.MissingAnchor("transfer.RecvManifestMultiStream / DataStreams.Count / controlTypeEnd")
+		return
+	}
+	info := recv.Info()
+	n := 0
+	InspectNoLits(recv.Body, func(m ast.Node) bool {
+		fs, ok := m.(*ast.ForStmt)
+		if !ok || fs.Cond == nil {
+			return true
+		}
+		be, ok := ast.Unparen(fs.Cond).(*ast.BinaryExpr)
+		if !ok || be.Op != token.EQL {
+			return true
+		}
+		if z, ok := constInt(info, be.Y); !ok || z != 0 {
+			return true
+		}
+		x, _ := ObjOf(info, be.X).(*types.Var)
+		if x == nil {
+			return true
+		}
+		// x is assigned the announced count inside the loop
+		fromCount := false
+		ast.Inspect(fs.Body, func(y ast.Node) bool {
+			if as, ok := y.(*ast.AssignStmt); ok && len(as.Lhs) == 1 && ObjOf(info, as.Lhs[0]) == types.Object(x) {
+				ast.Inspect(as.Rhs[0], func(z ast.Node) bool {
+					if sel, ok := z.(*ast.SelectorExpr); ok && info.Uses[sel.Sel] == cnt {
+						fromCount = true
+					}
+					return true
+				})
+			}
+			return true
+		})
+		if !fromCount {
+			return true
+		}
+		n++
+		// an `if … == controlTypeEnd` (or a switch case) whose body returns
+		handles := false
+		ast.Inspect(fs.Body, func(y ast.Node) bool {
+			switch s := y.(type) {
+			case *ast.IfStmt:
+				mentionsEnd := false
+				ast.Inspect(s.Cond, func(z ast.Node) bool {
+					if id, ok := z.(*ast.Ident); ok && info.Uses[id] == types.Object(endC) {
+						mentionsEnd = true
+					}
+					return true
+				})
+				if b, ok := ast.Unparen(s.Cond).(*ast.BinaryExpr); mentionsEnd && ok && b.Op == token.EQL {
+					for _, st := range s.Body.List {
+						if _, isRet := st.(*ast.ReturnStmt); isRet {
+							handles = true
+						}
+					}
+				}
+			case *ast.CaseClause:
+				for _, e := range s.List {
+					if id, ok := ast.Unparen(e).(*ast.Ident); ok && info.Uses[id] == types.Object(endC) {
+						for _, st := range s.Body {
+							if _, isRet := st.(*ast.ReturnStmt); isRet {
+								handles = true
+							}
+						}
+					}
+				}
+			}
+			return true
+		})
+		c.Check(handles, fmt.Sprintf("announce-wait/loop#%d", n), fs.Pos(), "the wait for the announcement returns on End",
+			"the loop that waits for the DataStreams record keeps an End record for later and goes on waiting: after End the control reader has finished, so a control stream of header, End, close leaves RecvManifestMultiStream blocked until its context ends - input that has ended must produce an error")
+		return true
+	})
+	if n == 0 {
+		c.Bad("announce-wait/none", recv.Pos(), "found no loop waiting for the data-stream announcement")
+	}
+}
+
+func init() {
+	Register(&Rule{
+		Name:  "R-BEGIN-ONCE",
+		Props: []string{"C01", "C02", "C15"},
+		Min:   1,
+		Doc: "a file is begun once: in the multiplexed receiver the registration of receive state for a FileBegin (the store into the map of active files) is reached only past the rejection of a key that is already active AND of a key that was already completed " +
+			"(the set finalizeFile fills) - a FileBegin replayed for a finished file would be received and counted again, the count of completed files reaches the manifest total with another file never delivered, and the receiver returns success (F42)",
+		Run: runBeginOnce,
+	})
+}
+
+func runBeginOnce(c *Ctx) {
+	p := c.P
+	recv := p.Func("transfer.RecvManifestMultiStream")
+	if recv == nil {
+		c.MissingAnchor("transfer.RecvManifestMultiStream")
+		return
+	}
+	// the two key sets: a map whose values are the mux state pointer (active) and a map keyed alike that finalizeFile stores into (done)
+	var active, done types.Object
+	for _, f := range allKids(recv) {
+		info := f.Info()
+		InspectNoLits(f.Body, func(m ast.Node) bool {
+			as, ok := m.(*ast.AssignStmt)
+			if !ok || len(as.Lhs) != 1 {
+				return true
+			}
+			ix, ok := ast.Unparen(as.Lhs[0]).(*ast.IndexExpr)
+			if !ok {
+				return true
+			}
+			o := ObjOf(info, ix.X)
+			if o == nil {
+				return true
+			}
+			mt, ok := o.Type().Underlying().(*types.Map)
+			if !ok {
+				return true
+			}
+			if b, ok := mt.Key().Underlying().(*types.Basic); !ok || b.Kind() != types.Uint64 {
+				return true
+			}
+			if strings.Contains(mt.Elem().String(), "recvFileStateMux") {
+				active = o
+			} else if _, isStruct := mt.Elem().Underlying().(*types.Struct); isStruct && strings.Contains(f.Name, "finalizeFile") {
+				done = o
+			}
+			return true
+		})
+	}
+	if active == nil || done == nil {
+		c.Unknown("begin-once/sets", recv.Pos(), "cannot identify the map of active files and the set of completed files in RecvManifestMultiStream")
+		return
+	}
+	n := 0
+	for _, f := range allKids(recv) {
+		info := f.Info()
+		spec := &PassSpec{Name: "begin-once", Vias: []Via{{Cond: func(g *FuncInfo, e ast.Expr) (string, bool, bool) {
+			// `_, ok := M[key]; ok` : the ident tested is the comma-ok result of a lookup in M
+			id, isID := ast.Unparen(e).(*ast.Ident)
+			neg := false
+			if u, ok := ast.Unparen(e).(*ast.UnaryExpr); ok && u.Op == token.NOT {
+				id, isID = ast.Unparen(u.X).(*ast.Ident)
+				neg = true
+			}
+			if !isID {
+				return "", false, false
+			}
+			o := g.Info().Uses[id]
+			if o == nil {
+				return "", false, false
+			}
+			which := ""
+			ast.Inspect(g.Body, func(m ast.Node) bool {
+				as, ok := m.(*ast.AssignStmt)
+				if !ok || len(as.Lhs) != 2 || len(as.Rhs) != 1 || ObjOf(g.Info(), as.Lhs[1]) != o {
+					return true
+				}
+				if ix, ok := ast.Unparen(as.Rhs[0]).(*ast.IndexExpr); ok {
+					switch ObjOf(g.Info(), ix.X) {
+					case active:
+						which = "not-active"
+					case done:
+						which = "not-done"
+					}
+				}
+				return true
+			})
+			if which == "" {
+				return "", false, false
+			}
+			return which, neg, true
+		}}}}
+		f.CFG().EachNode(func(r NodeRef) {
+			as, ok := r.Node().(*ast.AssignStmt)
+			if !ok || len(as.Lhs) != 1 {
+				return
+			}
+			ix, ok := ast.Unparen(as.Lhs[0]).(*ast.IndexExpr)
+			if !ok || ObjOf(info, ix.X) != active {
+				return
+			}
+			n++
+			key := fmt.Sprintf("begin-once/%s#%d", f.Name, n)
+			c.Check(spec.Passed(f, r, "not-active"), key+"/not-active", as.Pos(), "registration only for a key that is not active", "receive state is registered for a key that may already be active: a duplicate FileBegin replaces the state of a file in progress")
+			c.Check(spec.Passed(f, r, "not-done"), key+"/not-done", as.Pos(), "registration only for a key that was not completed before",
+				"receive state is registered for a file that may already have been completed: a replayed FileBegin is received and counted again, the completed-files count reaches the manifest total while another file was never delivered, and the receiver returns success")
+		})
+	}
+	if n == 0 {
+		c.Bad("begin-once/none", recv.Pos(), "found no registration of receive state")
+	}
+}
+
+func init() {
+	Register(&Rule{
+		Name:  "R-RESEND-ONCE",
+		Props: []string{"C17"},
+		Min:   1,
+		Doc: "the chunk that failed verification goes out once: every assignment resendPending = true in the sender is reached only past `<chunk> < F` (true edge), where <chunk> is the value stored into resendChunk beside it and F the value stored into resumePlan.forceSendFrom - " +
+			"a chunk at or above the force-send index is sent by the ordinary schedule anyway (after the verdict), so scheduling it as the re-send as well dispatches it twice; with the default verify tail of 1 that is every failed verification (F43)",
+		Run: runResendOnce,
+	})
+}
+
+func runResendOnce(c *Ctx) {
+	p := c.P
+	send := p.Func("transfer.SendManifestMultiStream")
+	if send == nil {
+		c.MissingAnchor("transfer.SendManifestMultiStream")
+		return
+	}
+	n := 0
+	for _, f := range allKids(send) {
+		info := f.Info()
+		// F candidates: objects stored into resumePlan.forceSendFrom in f or its ancestors
+		fvars := map[types.Object]bool{}
+		for h := f; h != nil; h = h.Parent {
+			ast.Inspect(h.Body, func(m ast.Node) bool {
+				if kv, ok := m.(*ast.KeyValueExpr); ok {
+					if k, ok := kv.Key.(*ast.Ident); ok && k.Name == "forceSendFrom" {
+						if o := ObjOf(h.Info(), kv.Value); o != nil {
+							fvars[o] = true
+						}
+					}
+				}
+				return true
+			})
+		}
+		spec := &PassSpec{Name: "below-force", Vias: []Via{{Cond: func(g *FuncInfo, e ast.Expr) (string, bool, bool) {
+			be, ok := ast.Unparen(e).(*ast.BinaryExpr)
+			if !ok {
+				return "", false, false
+			}
+			switch {
+			case be.Op == token.LSS && fvars[ObjOf(g.Info(), be.Y)]:
+				return "below:" + types.ExprString(be.X), true, true
+			case be.Op == token.GEQ && fvars[ObjOf(g.Info(), be.Y)]:
+				return "below:" + types.ExprString(be.X), false, true
+			case be.Op == token.GTR && fvars[ObjOf(g.Info(), be.X)]:
+				return "below:" + types.ExprString(be.Y), true, true
+			}
+			return "", false, false
+		}}}}
+		f.CFG().EachNode(func(r NodeRef) {
+			as, ok := r.Node().(*ast.AssignStmt)
+			if !ok || len(as.Lhs) != 1 || len(as.Rhs) != 1 {
+				return
+			}
+			sel, ok := ast.Unparen(as.Lhs[0]).(*ast.SelectorExpr)
+			if !ok || sel.Sel.Name != "resendPending" || types.ExprString(as.Rhs[0]) != "true" {
+				return
+			}
+			n++
+			// the chunk stored into resendChunk in the same block
+			chunk := ""
+			for _, nd := range r.B.Nodes {
+				if a2, ok := nd.(*ast.AssignStmt); ok && len(a2.Lhs) == 1 && len(a2.Rhs) == 1 {
+					if s2, ok := ast.Unparen(a2.Lhs[0]).(*ast.SelectorExpr); ok && s2.Sel.Name == "resendChunk" {
+						chunk = types.ExprString(a2.Rhs[0])
+					}
+				}
+			}
+			key := fmt.Sprintf("resend-once/%s#%d", f.Name, n)
+			if chunk == "" {
+				c.Unknown(key, as.Pos(), "cannot find the chunk stored into resendChunk beside resendPending = true")
+				return
+			}
+			c.Check(spec.Passed(f, r, "below:"+chunk), key, as.Pos(), "the explicit re-send is scheduled only for a chunk below the force-send index",
+				"the re-send of chunk "+chunk+" is scheduled without testing that it lies below the plan's force-send index: a chunk inside the verify tail (with the default tail of 1: always the chunk that was verified) is also sent by the ordinary schedule, so it is dispatched twice and announced as two frames")
+		})
+		_ = info
+	}
+	if n == 0 {
+		c.Bad("resend-once/none", send.Pos(), "found no scheduling of a re-send in the sender")
+	}
+}
+
+func init() {
+	Register(&Rule{
+		Name:  "R-OPEN-BOUNDED",
+		Props: []string{"C03"},
+		Min:   2,
+		Doc: "the sender does not wait without bound for the peer to allow another data stream, and announces what it opened (F44): in SendManifestMultiStream the OpenStream call in the loop over the data streams takes a context that has a definition by context.WithTimeout / WithDeadline " +
+			"(opening blocks only at the peer's limit of concurrent streams, which cannot rise while all streams stay open), and the count written into the DataStreams record derives from the length of the slice the opened streams were appended to",
+		Run: runOpenBounded,
+	})
+}
+
+func runOpenBounded(c *Ctx) {
+	p := c.P
+	send := p.Func("transfer.SendManifestMultiStream")
+	if send == nil {
+		c.MissingAnchor("transfer.SendManifestMultiStream")
+		return
+	}
+	info := send.Info()
+	var opened types.Object // the slice the streams are appended to
+	n := 0
+	InspectNoLits(send.Body, func(m ast.Node) bool {
+		fs, ok := m.(*ast.ForStmt)
+		if !ok {
+			return true
+		}
+		var open *ast.CallExpr
+		InspectNoLits(fs.Body, func(x ast.Node) bool {
+			if call, ok := x.(*ast.CallExpr); ok {
+				if sel, ok := ast.Unparen(call.Fun).(*ast.SelectorExpr); ok && sel.Sel.Name == "OpenStream" && len(call.Args) == 1 {
+					open = call
+				}
+			}
+			return true
+		})
+		if open == nil {
+			return true
+		}
+		n++
+		timed := false
+		if o, ok := ObjOf(info, open.Args[0]).(*types.Var); ok {
+			for _, d := range allDefs(send, o) {
+				if call, ok := ast.Unparen(d).(*ast.CallExpr); ok && (calleeIs(info, call, "context", "WithTimeout") || calleeIs(info, call, "context", "WithDeadline")) {
+					timed = true
+				}
+			}
+		}
+		c.Check(timed, fmt.Sprintf("open-bounded/loop#%d", n), open.Pos(), "opening a further data stream waits a bounded time",
+			"the loop that opens the data streams calls OpenStream on "+types.ExprString(open.Args[0])+", which never times out: a receiver whose limit of concurrent streams is below the sender's stream count (--quic-max-incoming-streams 4 against 8 streams) leaves the sender waiting in OpenStream and itself waiting for the announcement, both for ever")
+		// the slice the result goes to
+		InspectNoLits(fs.Body, func(x ast.Node) bool {
+			if as, ok := x.(*ast.AssignStmt); ok && len(as.Lhs) == 1 && len(as.Rhs) == 1 {
+				if call, ok := ast.Unparen(as.Rhs[0]).(*ast.CallExpr); ok {
+					if id, ok := ast.Unparen(call.Fun).(*ast.Ident); ok && id.Name == "append" && len(call.Args) == 2 && ObjOf(info, call.Args[0]) == ObjOf(info, as.Lhs[0]) {
+						opened = ObjOf(info, as.Lhs[0])
+					}
+				}
+			}
+			return true
+		})
+		return true
+	})
+	if n == 0 {
+		c.Bad("open-bounded/none", send.Pos(), "found no loop opening data streams in SendManifestMultiStream")
+		return
+	}
+	// the announced count
+	cntF, _ := p.LookupObj("internal/transfer", "DataStreams.Count").(*types.Var)
+	k := 0
+	InspectNoLits(send.Body, func(m ast.Node) bool {
+		kv, ok := m.(*ast.KeyValueExpr)
+		if !ok {
+			return true
+		}
+		if id, ok := kv.Key.(*ast.Ident); !ok || info.Uses[id] != types.Object(cntF) {
+			return true
+		}
+		k++
+		good := false
+		if opened != nil {
+			for _, d := range append([]ast.Expr{kv.Value}, resolveExprsAll(send, StripConv(info, kv.Value))...) {
+				if call, ok := StripConv(info, d).(*ast.CallExpr); ok && len(call.Args) == 1 {
+					if id, ok := ast.Unparen(call.Fun).(*ast.Ident); ok && id.Name == "len" && ObjOf(info, call.Args[0]) == opened {
+						good = true
+					}
+				}
+			}
+		}
+		c.Check(good, fmt.Sprintf("announce-opened/count#%d", k), kv.Pos(), "the announced count is the number of streams that were opened",
+			"the DataStreams record announces "+types.ExprString(kv.Value)+", which does not derive from the number of streams actually opened: when fewer streams could be opened than planned the receiver waits for streams that never come")
+		return true
+	})
+	if k == 0 {
+		c.Bad("announce-opened/none", send.Pos(), "found no DataStreams record written by SendManifestMultiStream")
+	}
+}
+
+// resolveExprsAll: every definition of the local variable e denotes (one level), for variables with several definitions too.
+func resolveExprsAll(f *FuncInfo, e ast.Expr) []ast.Expr {
+	o, ok := ObjOf(f.Info(), e).(*types.Var)
+	if !ok || o.IsField() {
+		return nil
+	}
+	if own := owningFunc(f, o); own != nil {
+		return allDefs(own, o)
+	}
+	return nil
+}
+
+func init() {
+	Register(&Rule{
+		Name:  "R-SIDECAR-ALLOC",
+		Props: []string{"C06"},
+		Min:   2,
+		Doc: "a damaged sidecar cannot size a buffer: in LoadSidecar every make([]byte, n) whose n was read from the file is dominated by a comparison that rejects n above the bytes that are left (n > reader.Len() / len(data)), " +
+			"since the checksum is only compared after the whole file was parsed - one flipped bit in the 32-bit bitmap length would otherwise allocate gigabytes on every resume of that file (F45)",
+		Run: runSidecarAlloc,
+	})
+}
+
+func runSidecarAlloc(c *Ctx) {
+	p := c.P
+	f := p.Func("transfer.LoadSidecar")
+	if f == nil {
+		c.MissingAnchor("transfer.LoadSidecar")
+		return
+	}
+	info := f.Info()
+	bs := boundSpec()
+	n := 0
+	f.CFG().Calls(func(r NodeRef, call *ast.CallExpr) {
+		id, ok := ast.Unparen(call.Fun).(*ast.Ident)
+		if !ok || id.Name != "make" || len(call.Args) < 2 {
+			return
+		}
+		size := call.Args[len(call.Args)-1]
+		if tv, ok := info.Types[size]; ok && tv.Value != nil {
+			return
+		}
+		n++
+		sx := types.ExprString(StripConv(info, size))
+		c.Check(bs.Passed(f, r, "bounded:"+sx), fmt.Sprintf("sidecar-alloc/make#%d", n), call.Pos(), "the buffer length was compared with the bytes left in the file",
+			"LoadSidecar allocates make("+types.ExprString(call.Args[0])+", "+sx+") with a length read from the file and not yet validated (the checksum is compared later): one flipped bit in a sidecar of 50 bytes makes the receiver allocate up to 4 GiB while it handles FileBegin, on every resume of that file")
+	})
+	if n == 0 {
+		c.Bad("sidecar-alloc/none", f.Pos(), "LoadSidecar allocates nothing sized by the file")
 	}
 }
